@@ -206,3 +206,43 @@ def lastSet (held : List (F × F)) : List (Op F) → List (F × F)
   | _ :: ops => lastSet held ops
 
 end Livetime
+
+/-! ### Good-run-list glue: `clip_grl_start_times` (skyllh/analyses/i3/publicdata_ps/utils.py),
+`I3Livetime.from_grl_data` (skyllh/i3/livetime.py) and the time generator pass-through
+(`skyllh/core/times.py`). -/
+namespace Livetime
+
+variable {F : Type}
+
+/-- `clip_grl_start_times` with the stop time of the previous run as a parameter:
+`new_start = where(start[1:] - stop[:-1] < 0, stop[:-1], start[1:])`; stop times are not touched, so the
+vectorised numpy expression and this left-to-right recursion read the same `stop[:-1]`.
+(`start - prev < 0` and `start < prev` agree on IEEE doubles, NaN and ±inf included; the correspondence
+check compares bit by bit.) -/
+def clipFrom [LT F] [DecidableLT F] (prev : F) : List (F × F) → List (F × F)
+  | [] => []
+  | p :: rest => ((if p.1 < prev then prev else p.1), p.2) :: clipFrom p.2 rest
+
+/-- `clip_grl_start_times(grl_data)`: the first run keeps its start time. -/
+def clipStarts [LT F] [DecidableLT F] : List (F × F) → List (F × F)
+  | [] => []
+  | p :: rest => p :: clipFrom p.2 rest
+
+/-- `I3Livetime.from_grl_data`: `hstack` of the start and the stop column, then the validating
+constructor (`none` = `ValueError`). -/
+def fromGrl [LE F] [DecidableLE F] (starts stops : List F) : Option (List (F × F)) :=
+  let ivs := starts.zip stops
+  if integrity (flat ivs) then some ivs else none
+
+/-- the analysis' sequence `clip_grl_start_times(grl); I3Livetime.from_grl_data(grl)` -/
+def grlLivetime [LE F] [LT F] [DecidableLE F] [DecidableLT F] (runs : List (F × F)) : Option (List (F × F)) :=
+  let c := clipStarts runs
+  fromGrl (c.map Prod.fst) (c.map Prod.snd)
+
+/-- `TimeGenerator(LivetimeTimeGenerationMethod(livetime)).generate_times(rss, size, **kwargs)` for one
+deviate: both layers hand `rss`, `size` and the keyword arguments through to `Livetime.draw_ontimes`. -/
+def generateTime [LE F] [LT F] [DecidableLE F] [DecidableLT F] [Add F] [Sub F] [Mul F] [OfNat F 0]
+    (ivs : List (F × F)) (tmin tmax : Option F) (u : F) : Option F :=
+  drawWin ivs tmin tmax u
+
+end Livetime
